@@ -12,6 +12,12 @@ func debugAlphabet() {
 	for _, o := range n.ops("") {
 		fmt.Println(o)
 	}
+	for _, o := range []op{{"inject-foreign", "fee-minus-1-G-A"}, {"block", "valid[pay-A-B]+1h"}, {"refresh", ""}} {
+		fmt.Println("scenario", o, n.apply(o, true, func(props, sig, f string, a ...interface{}) { fmt.Println("   FAIL", props, sig, fmt.Sprintf(f, a...)) }))
+		for h, e := range n.M.Pool {
+			fmt.Println("   model pool", hx(h), e.Valid)
+		}
+	}
 	for _, a := range users {
 		fmt.Println(a.Name, len(n.M.OutputsOf(a.Addr)))
 	}
